@@ -15,3 +15,10 @@ claim("C05", "gate rule on MIR (typestate of the `immovable` flag) + table agree
       " Semantic preservation by each optimisation rewrite (const folding, match optimisation, inlining, CSE, ...) is not decided.",
       "trusted: rustc MIR, fact dumper, token-level scan of corelib extern declarations; assumes nopanic+no-implicits externs are side-effect free",
       "DESIGN.md section 4, C05")
+claim("C18", "sibling agreement extracted from MIR (tag/flag/sentinel/field-order maps of writer and reader) + field-read discipline over the call graph",
+      "The hand-written felt252 serializer and deserializer use the same tags (incl. the negation on tag 5), flag bits, sentinel and "
+      "field order; every generic id longer than 31 bytes is registered for long-id serialization; and no function reachable from the "
+      "Sierra->CASM path reads an id's debug_name except formatting/serde/debug-info code, nor does any Eq/Hash/Ord of an id." + DECIDES +
+      " Text round-trip through the LALRPOP grammar, JSON round-trip and byte-identical CASM after round-trip are not decided.",
+      "trusted: rustc MIR, fact dumper, extractor shapes in rules/c18.py (fail closed when a shape is not recognised)",
+      "DESIGN.md section 4, C18")
